@@ -23,6 +23,22 @@ CHECKS = {
          "Successful parses of grammars with error alternatives on mutated sentences are checked against the six clauses of A.9 (derivation shape, token order, every missing token inside exactly one error span, spans ordered/disjoint, dropped tokens in order, no recovery on valid input)."),
  "C17": ("exploration", "3/C17 + A.8", "trace monitor over the recorded pull/error/action event log: the first failing event must be the last event and must be returned verbatim",
          "Stream errors are injected at every kind of position (0, n, random) and fallible actions are told to fail at their k-th invocation; the event log of each execution is checked without any model of the parser, and for sentences the reference evaluator says which action must fail first."),
+ "C03": ("exploration", "3/C03", "differential runtime monitor: real CLI outcome (accept / conflict diagnostic) under lane-table, canonical LR(1) and LALR(1) vs a textbook LR(1)/LALR(1) construction on the reference-desugared, reference-inlined grammar",
+         "All 377 one-nonterminal grammars over {a,b} are enumerated; two-nonterminal tiny grammars, random raw CFGs (with unreachable/unproductive nonterminals, several pub starts), sugar/inline grammars, boundary families (LR(1)-not-LALR, LALR-not-SLR, LR(2), dangling else) and lane-table stress families are sampled; every (grammar, construction) outcome is compared with the oracle."),
+ "C08": ("exploration", "3/C08 + 2.1", "runtime monitor with a logical step budget (hooked driver/lexer loops), catch_unwind panic capture and child-crash attribution, over lexer, extern-token and recovery workloads",
+         "Termination is restated as bounded progress: every parse must finish within B(n,G) driver/lexer steps (counted by the `verif` hook), without panic or crash; wall-clock watchdog firings are inconclusive."),
+ "C09": ("exploration", "3/C09 + A.6", "differential runtime monitor: compiled generated lexers vs reference lexer (longest full match by the regex crate + documented precedence ranks)",
+         "Generated terminal sets (literals, regexes, 0-3 match rungs, renamings, skip rules, `_`, implicit whitespace skip) are compiled in both back ends and run on texts built from pattern samples, whitespace and noise; token kinds, texts, byte spans and the InvalidToken offset are compared."),
+ "C10": ("exploration", "3/C10", "differential runtime monitor as C09, focused on single terminals: exotic literals and syntax-directed regexes vs full-match on the original pattern text",
+         "1-2 terminals per lexer; strings sampled from the pattern, single-edit mutants and case swaps decide membership both ways; any re-rendering difference shows up as a token difference."),
+ "C11": ("exploration", "3/C11", "differential monitor: CLI ambiguity diagnostic vs exact DFA-product overlap of every equal-precedence pair (regex-automata dense DFAs, match-kind all), unsupported features must be diagnosed",
+         "Acceptance must imply that no equal-precedence pair has an unshadowed common string; an ambiguity report must be backed by a common string; overlaps that a higher-precedence pattern always wins are treated as unspecified."),
+ "C12": ("exploration", "3/C12 + A.4", "differential runtime monitor: annotated grammar through LALRPOP vs reference tier grammar through Earley + reference evaluator",
+         "Random layouts of #[precedence]/#[assoc] (gaps, interleaving, inheritance, all four sides, binary/prefix/postfix/ternary/n-ary/grouped alternatives) are compiled and run on exhaustive short operator strings, sentences and mutants; acceptance and parse trees must match the documented tiers."),
+ "C13": ("exploration", "3/C13 + A.3", "differential runtime monitor: sugared grammar through LALRPOP vs reference expansion by substitution through Earley + reference evaluator",
+         "Macro definitions (plain, two-parameter, conditional, list, optional, recursive tier) used with literal/nonterminal/group/repeat/nested arguments; language and values (Vec order, Option, tuple shapes) are compared."),
+ "C18": ("exploration", "3/C18", "runtime monitor on process status + stderr of the real CLI (debug build: debug_assert/overflow checks active) over mutated corpus grammars and targeted near-valid producers",
+         "Token-level and byte-level mutants of every .lalrpop file in the repository and of generator output, targeted producers for attribute/precedence/macro/pattern/match-block corner cases, and conflict-rich grammars that exercise the error-report generator; any exit other than 0/1, any panic or abort is a violation keyed by source location."),
 }
 checks = []
 for p in props:
